@@ -263,15 +263,33 @@ def register(reg):
 
         # ---- retry loop (C20)
         def _gen(self, c):
-            g = c.st.env.get("delays")
-            return getattr(g, "ref", None)
+            # the backoff generator object, whatever the local variable is called
+            for v in c.st.env.values():
+                if isinstance(v, VGen) and v.name == "backoff":
+                    return getattr(v, "ref", None)
+            return None
+
+        def _retries_left(self, c):
+            """the local counter of remaining retries: identified by role (the int local that was
+            initialised from self._retries), not by name"""
+            name = c.st.ghost.get("retries_var")
+            if name is None:
+                want = z3.simplify(F(c, c.self, "HC._retries"))
+                for k, v in c.st.env.items():
+                    if isinstance(v, VInt) and z3.eq(z3.simplify(v.t), want):
+                        name = c.st.ghost["retries_var"] = k
+                        break
+            v = c.st.env.get(name) if name else None
+            return c.eng.coerce(c.st, v, "int").t if v is not None else None
 
         def loop_invariant(self, c, ordinal):
             g = self._gen(c)
             if g is None:
                 return [("delays_is_the_backoff_generator", ("C20",), False)]
             k = F(c, g, "Backoff.k")
-            rl = c.eng.coerce(c.st, c.st.env["retries_left"], "int").t
+            rl = self._retries_left(c)
+            if rl is None:
+                return [("retry_counter_initialised_from_retries_setting", ("C20",), False)]
             n = F(c, c.self, "HC._retries")
             inv = [
                 ("attempts_plus_retries_left_is_n_plus_1", ("C20",), z3.And(k >= 0, rl + k == n, rl >= 0)),
@@ -395,7 +413,8 @@ def register(reg):
             retryable = eng.classes.issub(exc.cls, CE) or eng.classes.issub(exc.cls, CT)
             g = self._gen(c)
             if retryable and exc.cls != "Cancelled":
-                rl = eng.coerce(c.st, c.st.env["retries_left"], "int").t
+                rl = self._retries_left(c)
+                rl = rl if rl is not None else z3.IntVal(1)
                 k = F(c, g, "Backoff.k") if g is not None else z3.IntVal(-1)
                 out.append(("gives_up_only_when_retries_exhausted", ("C20",), z3.And(rl <= 0, k == F(c, c.self, "HC._retries"))))
                 last = [e for e in c.since_cut({"net.connect_tcp", "net.connect_unix", "net.start_tls"})]
